@@ -3,6 +3,7 @@ package playback
 import (
 	"errors"
 	"fmt"
+	"io"
 	"net"
 	"net/http"
 	"os"
@@ -69,7 +70,12 @@ func seekAndMux(
 		dts := startOffset
 		prevInit := firstInit
 
-		segmentDuration, err := segmentFMP4MuxParts(f, dts, duration, firstInit.Tracks, m)
+		validSize, err := segmentFMP4ValidSize(f)
+		if err != nil {
+			return err
+		}
+
+		segmentDuration, err := segmentFMP4MuxParts(io.NewSectionReader(f, 0, validSize), dts, duration, firstInit.Tracks, m)
 		if err != nil {
 			return err
 		}
@@ -83,10 +89,12 @@ func seekAndMux(
 			}
 			defer f.Close()
 
+			// a following segment that cannot be read (for instance the newest one, when the
+			// server was stopped while creating it) ends the playback, it does not cancel it.
 			var init *fmp4.Init
 			init, _, err = segmentFMP4ReadHeader(f)
 			if err != nil {
-				return err
+				break
 			}
 
 			if !segmentFMP4CanBeConcatenated(prevInit, segmentEnd, init, seg.Start) {
@@ -100,7 +108,12 @@ func seekAndMux(
 				dts = seg.Start.Sub(start) // this is positive
 			}
 
-			segmentDuration, err = segmentFMP4MuxParts(f, dts, duration, firstInit.Tracks, m)
+			validSize, err = segmentFMP4ValidSize(f)
+			if err != nil {
+				return err
+			}
+
+			segmentDuration, err = segmentFMP4MuxParts(io.NewSectionReader(f, 0, validSize), dts, duration, firstInit.Tracks, m)
 			if err != nil {
 				return err
 			}
